@@ -68,9 +68,9 @@ pub enum Flavor {
 }
 
 /// Sizes at and around common thresholds.
-pub const INTERESTING_SIZES: [usize; 36] = [
+pub const INTERESTING_SIZES: [usize; 38] = [
     15, 16, 17, 31, 32, 33, 63, 64, 65, 127, 128, 129, 255, 256, 257, 511, 512, 513, 1023, 1024, 1025, 4095, 4096, 4097, 8191, 8192, 8193, 16384, 32768,
-    65535, 65536, 65537, 69999, 131072, 131073, 262144,
+    65535, 65536, 65537, 69999, 131072, 131073, 262144, 262145, 299_999,
 ];
 
 /// Per-run swarm configuration of the generator.
@@ -104,7 +104,7 @@ pub fn swarm(rng: &mut Rng, flavor: Flavor, max_len: usize) -> Swarm {
     // length scale: many short runs, some long ones
     // the last two scales straddle common buffer thresholds (1 KiB, 8 KiB, 64 KiB); rare, because
     // such runs cost a thousand short ones
-    let scales = [3usize, 6, 10, 16, 32, 64, 128, 512, 2048, 4096, 20_000, 70_000, 270_000];
+    let scales = [3usize, 6, 10, 16, 32, 64, 128, 512, 2048, 4096, 20_000, 70_000, 300_000];
     let scale_w = [600u32, 1000, 1000, 800, 800, 600, 400, 200, 100, 100, 12, 6, 1];
     let scale = scales[rng.weighted(&scale_w)].min(max_len.max(1));
     let mut target_len = rng.range(0, scale);
@@ -113,6 +113,10 @@ pub fn swarm(rng: &mut Rng, flavor: Flavor, max_len: usize) -> Swarm {
     // change behaviour; hit them on purpose now and then
     if rng.chance(1, 60) {
         let mut t = *rng.pick(&INTERESTING_SIZES);
+        if t > 70_000 && !rng.chance(1, 6) {
+            // the very large ones cost thousands of ordinary runs each: rarer
+            t = *rng.pick(&INTERESTING_SIZES[..30]);
+        }
         if rng.chance(1, 3) {
             // a little below the threshold: framing, prefixes or pending bytes fill the rest
             t = t.saturating_sub(rng.below(24));
